@@ -129,7 +129,68 @@ fn environment_stage(ctx: &Ctx, prop: &str, rep: &mut Report) {
     ));
 }
 
+/// Unoptimised-build stage (only when ./check built that harness: C10): fast_qr at opt-level 0 with all assertions,
+/// the way `cargo test` compiles it; a sixth of the quick workload plus everything that does not go through the pool
+/// (the huge-input family on default-size stacks).
+fn unoptimised_stage(ctx: &Ctx, prop: &str, rep: &mut Report) {
+    let bin = match std::env::var_os("VCHECK_DEV_BIN").map(PathBuf::from) {
+        Some(b) if b.is_file() => b,
+        Some(b) => {
+            rep.stats.inconclusive(format!("unoptimised-build stage: {} not found", b.display()));
+            return;
+        }
+        None => return,
+    };
+    let t0 = Instant::now();
+    let evdir = std::env::var_os("VCHECK_TARGET_DIR").map(PathBuf::from).unwrap_or_else(|| ctx.root.join("harness/target")).join("scratch").join(format!("devstage-{}-{}", prop, std::process::id()));
+    let _ = std::fs::create_dir_all(&evdir);
+    let out = Command::new(&bin)
+        .args(["run", prop, "--tier", "quick"])
+        .env("VCHECK_STAGE_CHILD", "environment")
+        .env("VERIF_THIN", "6")
+        .env("VERIF_SEED", format!("{}", (ctx.seed ^ 0xde7) as i128))
+        .env("VERIF_EVIDENCE_DIR", &evdir)
+        .stdin(Stdio::null())
+        .output();
+    let out = match out {
+        Ok(o) => o,
+        Err(e) => {
+            rep.stats.inconclusive(format!("unoptimised-build stage: cannot start child: {e}"));
+            return;
+        }
+    };
+    let stdout = String::from_utf8_lossy(&out.stdout).to_string();
+    let mut violations = 0u64;
+    for line in stdout.lines() {
+        if let Some(rest) = line.strip_prefix("VIOLATION ") {
+            let field = |k: &str| rest.split_whitespace().find_map(|w| w.strip_prefix(&format!("{k}="))).unwrap_or("").to_string();
+            let detail = rest.splitn(4, ' ').nth(3).unwrap_or("").to_string();
+            rep.stats.violations.push(crate::stats::Violation {
+                property: prop.to_string(),
+                kind: format!("unoptimised-build:{}", field("kind")),
+                detail: format!("{detail} (observed with fast_qr compiled at opt-level 0, all assertions on)"),
+                job: json!({"profile": "dev", "child_replay": field("replay")}),
+            });
+            rep.stats.count("violations_total", 1);
+            violations += 1;
+        } else if line.starts_with("INCONCLUSIVE") {
+            rep.stats.inconclusive(format!("unoptimised-build stage: {line}"));
+        }
+    }
+    let ev: Option<Value> = std::fs::read_to_string(evdir.join(format!("{prop}.json"))).ok().and_then(|t| serde_json::from_str(&t).ok());
+    let _ = std::fs::remove_dir_all(&evdir);
+    let evals = ev.as_ref().and_then(|e| e["coverage"]["evaluations"].as_u64()).unwrap_or(0);
+    if ev.is_none() && violations == 0 {
+        rep.stats.inconclusive(format!("unoptimised-build stage: child ended with {:?} and no evidence", out.status.code()));
+    }
+    rep.stats.count("unoptimised_build_executions", evals);
+    rep.extra.push(("stage_unoptimised_build".into(), json!({"what": "same monitors, a sixth of the pooled quick workload plus the un-pooled families, fast_qr compiled at opt-level 0 with overflow checks and debug assertions", "evaluations": evals, "violations": violations, "wall_s": (t0.elapsed().as_secs_f64() * 10.0).round() / 10.0})));
+}
+
 pub fn run(ctx: &Ctx, prop: &str, rep: &mut Report) {
+    if !is_child() && !std::env::var("VERIF_NO_RELEASE_STAGE").map(|v| v == "1").unwrap_or(false) {
+        unoptimised_stage(ctx, prop, rep);
+    }
     if !is_child() && !std::env::var("VERIF_NO_RELEASE_STAGE").map(|v| v == "1").unwrap_or(false) {
         environment_stage(ctx, prop, rep);
     }
